@@ -180,6 +180,11 @@ def run_shard(shard, tier, seed, wd, res):
             for n in (0, 1, 2, 3, 5, 17):
                 off = rng.randrange(0, 64 - n)
                 s.op(gp + ".msm_pre256", V.lst([V.aff(g, p) for p in pts[off:off + n]]), V.lst([V.RR(k) for k in ks[off:off + n]]))
+                if n >= 2:
+                    # a table that covers more points than are passed, with more scalars than points
+                    m = rng.randrange(1, n)
+                    s.op(gp + ".msm_pre256x", V.lst([V.aff(g, p) for p in pts[off:off + n]]), V.lst([V.aff(g, p) for p in pts[off:off + m]]),
+                         V.lst([V.RR(k) for k in ks[off:off + rng.choice([m, n, n])]]))
     else:
         for b in BOUNDS:
             for d in (-1, 0, 1):
@@ -195,11 +200,14 @@ def judge(ctx, rec, res):
     name = rec.op.split(".")[1]
     g = 1 if rec.op.startswith("g1") else 2
     c = E1 if g == 1 else E2
-    if name in ("msm", "msm_pip", "msm_pre256"):
-        pts = [spec.pt(p)[1] for p in rec.args[0][1]]
-        ks = [x[1] for x in rec.args[1][1]]
+    if name in ("msm", "msm_pip", "msm_pre256", "msm_pre256x"):
+        off_ = 1 if name == "msm_pre256x" else 0
+        pts = [spec.pt(p)[1] for p in rec.args[off_][1]]
+        ks = [x[1] for x in rec.args[off_ + 1][1]]
         n = min(len(pts), len(ks))
         feats = []
+        if name == "msm_pre256x":
+            feats.append("table-longer-than-points")
         if len(pts) != len(ks):
             feats.append("len-mismatch:%s" % ("points-longer" if len(pts) > len(ks) else "scalars-longer"))
         sp = pts[:n]
